@@ -41,7 +41,7 @@ Definition src2_redirect_sig_check (md_certs : pyval -> pyval) (verify_sig : pyv
    | ExcS n_7 st_4 => match st_4 with [v_verified; v_exc] => (PExc n_7) | _ => PErr end
    end)))))))).
 
-(* saml2/sigver.py:SecurityContext.correctly_signed_message, lines 1582-1612 *)
+(* saml2/sigver.py:SecurityContext.correctly_signed_message, lines 1587-1617 *)
 Definition src2_correctly_signed_message (parse : pyval -> pyval -> pyval) (check_sig : pyval -> pyval -> pyval -> pyval -> pyval) (v_self : pyval) (v_decoded_xml : pyval) (v_msgtype : pyval) (v_must : pyval) (v_origdoc : pyval) (v_only_valid_cert : pyval) : pyval :=
   let v_attr := PErr in
   let v__func := PErr in
@@ -72,7 +72,7 @@ Definition src2_correctly_signed_message (parse : pyval -> pyval -> pyval) (chec
    | BErr => PErr
    end))))))))).
 
-(* saml2/entity.py:Entity._parse_request, lines 989-1061 *)
+(* saml2/entity.py:Entity._parse_request, lines 989-1066 *)
 Definition src2_parse_request (endpoint : pyval -> pyval -> pyval -> pyval) (cfg_getattr : pyval -> pyval -> pyval) (unravel : pyval -> pyval -> pyval -> pyval) (mk_request : pyval -> pyval -> pyval -> pyval) (loads : pyval -> list (string * pyval) -> pyval) (verify : pyval -> pyval) (v_self : pyval) (v_enc_request : pyval) (v_request_cls : pyval) (v_service : pyval) (v_binding : pyval) (v_relay_state : pyval) (v_sigalg : pyval) (v_signature : pyval) : pyval :=
   let v__log_debug := PErr in
   let v_receiver_addresses := PErr in
@@ -83,78 +83,86 @@ Definition src2_parse_request (endpoint : pyval -> pyval -> pyval -> pyval) (cfg
   let v_only_valid_cert := PErr in
   (py_bind (p2_attr_x (PObj [("__class__", PStr "Logger"); ("debug", PNone)]) "debug") (fun v__log_debug =>
    (py_bind (py_bind v_service (fun a_1 => (py_bind v_binding (fun a_2 => (py_bind (p2_attr_x v_self "entity_type") (fun a_3 => (endpoint a_1 a_2 a_3))))))) (fun v_receiver_addresses =>
-   (let k_43 := fun v_receiver_addresses =>
-    (let k_31 := fun v_timeslack =>
+   (let k_45 := fun v_receiver_addresses =>
+    (let k_33 := fun v_timeslack =>
      (py_bind (py_bind (p2_attr_x v_self "sec") (fun a_4 => (py_bind v_receiver_addresses (fun a_5 => (py_bind (p2_attr_x (p2_attr_x v_self "config") "attribute_converters") (fun a_6 => (py_bind v_timeslack (fun a_7 => (mk_request a_5 a_7 v_request_cls))))))))) (fun v__request =>
      (py_bind (py_bind v_enc_request (fun a_8 => (py_bind v_binding (fun a_9 => (py_bind (p2_attr_x v_request_cls "msgtype") (fun a_10 => (unravel a_8 a_9 a_10))))))) (fun v_xmlstr =>
      (py_bind (cfg_getattr (PStr "want_authn_requests_signed") (PStr "idp")) (fun v_must =>
      (py_bind (cfg_getattr (PStr "want_authn_requests_only_with_valid_cert") (PStr "idp")) (fun v_only_valid_cert =>
-     (let k_27 := fun v_only_valid_cert =>
-      (let k_25 := fun v_must =>
-       (py_bind (py_bind v_xmlstr (fun a_11 => (py_bind v_binding (fun a_12 => (py_bind v_enc_request (fun a_13 => (py_bind v_must (fun a_14 => (py_bind v_only_valid_cert (fun a_15 => (py_bind v_relay_state (fun a_16 => (py_bind v_sigalg (fun a_17 => (py_bind v_signature (fun a_18 => (loads v__request [("xmlstr", a_11); ("binding", a_12); ("must", a_14); ("only_valid_cert", a_15); ("origdoc", a_13); ("relay_state", a_16); ("sigalg", a_17); ("signature", a_18)]))))))))))))))))) (fun v__request =>
-       (let k_23 := fun (_ : unit) =>
-        (match p2_branch (p2_not v__request) with
+     (let k_29 := fun v_only_valid_cert =>
+      (let k_27 := fun v_only_valid_cert =>
+       (let k_25 := fun v_must =>
+        (py_bind (py_bind v_xmlstr (fun a_11 => (py_bind v_binding (fun a_12 => (py_bind v_enc_request (fun a_13 => (py_bind v_must (fun a_14 => (py_bind v_only_valid_cert (fun a_15 => (py_bind v_relay_state (fun a_16 => (py_bind v_sigalg (fun a_17 => (py_bind v_signature (fun a_18 => (loads v__request [("xmlstr", a_11); ("binding", a_12); ("must", a_14); ("only_valid_cert", a_15); ("origdoc", a_13); ("relay_state", a_16); ("sigalg", a_17); ("signature", a_18)]))))))))))))))))) (fun v__request =>
+        (let k_23 := fun (_ : unit) =>
+         (match p2_branch (p2_not v__request) with
+         | BTrue => PNone
+         | BFalse => v__request
+         | BExc n_19 => (PExc n_19)
+         | BErr => PErr
+         end) in
+        (match p2_branch v__request with
+        | BTrue => (match p2_branch (p2_not (verify v__request)) with
         | BTrue => PNone
-        | BFalse => v__request
-        | BExc n_19 => (PExc n_19)
+        | BFalse => (k_23 tt)
+        | BExc n_22 => (PExc n_22)
         | BErr => PErr
-        end) in
-       (match p2_branch v__request with
-       | BTrue => (match p2_branch (p2_not (verify v__request)) with
-       | BTrue => PNone
-       | BFalse => (k_23 tt)
-       | BExc n_22 => (PExc n_22)
+        end)
+        | BFalse => (k_23 tt)
+        | BExc n_23 => (PExc n_23)
+        | BErr => PErr
+        end)))) in
+       (match p2_branch v_only_valid_cert with
+       | BTrue => (let v_must := (PBool true) in
+       (k_25 v_must))
+       | BFalse => (k_25 v_must)
+       | BExc n_25 => (PExc n_25)
        | BErr => PErr
-       end)
-       | BFalse => (k_23 tt)
-       | BExc n_23 => (PExc n_23)
-       | BErr => PErr
-       end)))) in
-      (match p2_branch v_only_valid_cert with
-      | BTrue => (let v_must := (PBool true) in
-      (k_25 v_must))
-      | BFalse => (k_25 v_must)
-      | BExc n_25 => (PExc n_25)
+       end)) in
+      (match p2_branch (p2_is_none v_only_valid_cert) with
+      | BTrue => (let v_only_valid_cert := (PBool false) in
+      (k_27 v_only_valid_cert))
+      | BFalse => (k_27 v_only_valid_cert)
+      | BExc n_27 => (PExc n_27)
       | BErr => PErr
       end)) in
-     (match p2_branch (p2_is_none v_only_valid_cert) with
-     | BTrue => (let v_only_valid_cert := (PBool false) in
-     (k_27 v_only_valid_cert))
-     | BFalse => (k_27 v_only_valid_cert)
-     | BExc n_27 => (PExc n_27)
+     (match p2_branch (p2_isinstance v_only_valid_cert ["str"] []) with
+     | BTrue => (py_bind (p2_in (p2_lower (p2_strip v_only_valid_cert)) (p2_mklist [(PStr "true"); (PStr "yes"); (PStr "on"); (PStr "1")])) (fun v_only_valid_cert =>
+     (k_29 v_only_valid_cert)))
+     | BFalse => (k_29 v_only_valid_cert)
+     | BExc n_29 => (PExc n_29)
      | BErr => PErr
      end)))))))))) in
-    (let h_29 := fun n_29 v_timeslack =>
-     (if exc_matches n_29 ["AttributeError"]
+    (let h_31 := fun n_31 v_timeslack =>
+     (if exc_matches n_31 ["AttributeError"]
      then (let v_timeslack := (PInt (0)%Z) in
-     (k_31 v_timeslack))
-     else (PExc n_29)) in
-    (py_bindh (fun n_31 => (h_29 n_31 v_timeslack)) (p2_attr_x (p2_attr_x v_self "config") "accepted_time_diff") (fun v_timeslack =>
+     (k_33 v_timeslack))
+     else (PExc n_31)) in
+    (py_bindh (fun n_33 => (h_31 n_33 v_timeslack)) (p2_attr_x (p2_attr_x v_self "config") "accepted_time_diff") (fun v_timeslack =>
     (match p2_branch (p2_not v_timeslack) with
     | BTrue => (let v_timeslack := (PInt (0)%Z) in
-    (k_31 v_timeslack))
-    | BFalse => (k_31 v_timeslack)
-    | BExc n_30 => (h_29 n_30 v_timeslack)
+    (k_33 v_timeslack))
+    | BFalse => (k_33 v_timeslack)
+    | BExc n_32 => (h_31 n_32 v_timeslack)
     | BErr => PErr
     end))))) in
    (match p2_branch (p2_and (p2_not v_receiver_addresses) (p2_eq (p2_attr_x v_self "entity_type") (PStr "idp"))) with
-   | BTrue => (py_bind (p2_iter_check (p2_mklist [(PStr "aa"); (PStr "aq"); (PStr "pdp")])) (fun it_33 =>
-   (match pyfor2 (py_iter2 it_33) [v_receiver_addresses] (fun st_34 x_35 => match st_34 with [v_receiver_addresses] =>
-    (let v_typ := x_35 in
-    (py_bindS (fun n_42 => (ExcS n_42 [v_receiver_addresses])) (py_bind v_service (fun a_38 => (py_bind v_binding (fun a_39 => (py_bind v_typ (fun a_40 => (endpoint a_38 a_39 a_40))))))) (fun v_receiver_addresses =>
+   | BTrue => (py_bind (p2_iter_check (p2_mklist [(PStr "aa"); (PStr "aq"); (PStr "pdp")])) (fun it_35 =>
+   (match pyfor2 (py_iter2 it_35) [v_receiver_addresses] (fun st_36 x_37 => match st_36 with [v_receiver_addresses] =>
+    (let v_typ := x_37 in
+    (py_bindS (fun n_44 => (ExcS n_44 [v_receiver_addresses])) (py_bind v_service (fun a_40 => (py_bind v_binding (fun a_41 => (py_bind v_typ (fun a_42 => (endpoint a_40 a_41 a_42))))))) (fun v_receiver_addresses =>
     (match p2_branch v_receiver_addresses with
     | BTrue => (BrkS [v_receiver_addresses])
     | BFalse => (NextS [v_receiver_addresses])
-    | BExc n_41 => (ExcS n_41 [v_receiver_addresses])
+    | BExc n_43 => (ExcS n_43 [v_receiver_addresses])
     | BErr => (RetS PErr)
     end))))
    | _ => RetS PErr end) with
-   | NextS st_34 => match st_34 with [v_receiver_addresses] => (k_43 v_receiver_addresses) | _ => PErr end
-   | BrkS st_34 => match st_34 with [v_receiver_addresses] => (k_43 v_receiver_addresses) | _ => PErr end
-   | RetS r_36 => r_36
-   | ExcS n_37 st_34 => match st_34 with [v_receiver_addresses] => (PExc n_37) | _ => PErr end
+   | NextS st_36 => match st_36 with [v_receiver_addresses] => (k_45 v_receiver_addresses) | _ => PErr end
+   | BrkS st_36 => match st_36 with [v_receiver_addresses] => (k_45 v_receiver_addresses) | _ => PErr end
+   | RetS r_38 => r_38
+   | ExcS n_39 st_36 => match st_36 with [v_receiver_addresses] => (PExc n_39) | _ => PErr end
    end)))
-   | BFalse => (k_43 v_receiver_addresses)
-   | BExc n_43 => (PExc n_43)
+   | BFalse => (k_45 v_receiver_addresses)
+   | BExc n_45 => (PExc n_45)
    | BErr => PErr
    end)))))).
